@@ -28,12 +28,7 @@ THEOREMS = [
     "Lemmas.Filter.candidates_desc",
     "Lemmas.Filter.candidates_in",
 ]
-PARTIAL = {
-    "C20.conservative": "object-filter half proved at full strength (C20.conservative_object: the filtered diff IS the unfiltered "
-    "diff restricted to accepted targets); name-filter half proved when include_name rejects no reflected name of the inspected "
-    "database (C20.conservative_name); the per-table refinement that the checker Spec.Filter.conservativeOk evaluates (tables in "
-    "which no reflected name is rejected) is checked on the implementation's output only",
-}
+PARTIAL = {}
 TRUSTED = [
     "SQLAlchemy Inspector describes the SQLite database side for the model (get_table_names/get_columns/get_indexes/"
     "get_unique_constraints/get_foreign_keys); 'do two matched objects differ' is a parameter of the model, instantiated "
@@ -56,10 +51,16 @@ ASSUMPTIONS = [
     "include_object is asked about units of comparison: metadata-only (reflected=False, compare_to=None), database-only "
     "(reflected=True, compare_to=None), matched pair (reflected=False, compare_to=<reflected object>); a changed index / "
     "unique constraint is one matched pair, a changed foreign key is two units",
-    "no reflected unique constraint shares its name with a reflected index of the same table (the doubled_constraints path of "
-    "MySQL/PostgreSQL/Oracle is not modelled); no comments (SQLite)",
-    "conservativeness is judged per table: ops inside tables in which include_name rejects no reflected name, on objects "
-    "accepted by include_object, are the same as without filters",
+    "within one metadata table a named unique constraint and an index do not share a name (metadata_names is a dict filled from a "
+    "set: which one wins is hash-order dependent); reflected doubled names (doubled_constraints) ARE modelled and generated",
+    "comments: _compare_table_comment makes no filter call of its own - its op is appended inside the table-level guard "
+    "(compare.py:258) and targets that table (modelled as Model.Filter.tableCommentG, guarded by the table descriptor, covered by the "
+    "theorems); _compare_column_comment only sets fields of the AlterColumnOp guarded at compare.py:405 (Cmp.colDiffer). Neither "
+    "can be exercised against SQLite (supports_comments is False), so the comment group is proved but not corresponded",
+    "dialect hooks correct_for_autogen_constraints/_foreignkeys and _correct_for_uq_duplicates_uix (MySQL/Oracle: duplicates_index) "
+    "run before any filter call and only remove candidates; not modelled (no such server in the sandbox)",
+    "conservativeness is judged per table (C20.conservative_table): ops inside tables in which include_name rejects no reflected "
+    "name, on objects accepted by include_object, are the same as without filters",
 ]
 
 
@@ -173,7 +174,9 @@ def run(ctx, n_pairs=None, rng_name="main"):
     items = []
     for i in range(n):
         with_schema = rng.random() < 0.25
-        pair = fs.gen_pair(rng, big=ctx.thorough, with_schema=with_schema)
+        doubled = rng.random() < 0.35
+        ctx.hist("doubled_names_generated", doubled)
+        pair = fs.gen_pair(rng, big=ctx.thorough, with_schema=with_schema, doubled=doubled)
         preds = gen_preds(rng, pair, per)
         for fo, fn, _, _ in preds:
             ctx.hist("object_pred_family", fo)
